@@ -61,6 +61,13 @@ NOTES = {
  'C16-j1': 'missed at first; identity names containing the component KEY added; caught since',
  'C16-j2': 'missed at first; self_sign on 29 February of years whose +20 year is a leap year added to CertTime; caught since',
  'C18-j1': 'missed at first; the application may publish from inside the missing-data callback (re-entrancy); caught since',
+ 'C03-g2': 'missed at first (lifetimes >= 1 tick only on the consumer side); NdnPit!ExpressNow (legacy, InterestLifetime 0) added to the spec, the MC configurations and the drivers; caught since',
+ 'C04-g2': 'missed at first (generic components only); the spec component "c" now stands for an ImplicitSha256Digest component in every name representation, so prefixes and Interest names may end in one; caught since',
+ 'C05-g1': 'missed at first (the legacy default Interest validator was set once); the driver replaces app.int_validator every third Interest and a call of a retired validator is a violation; caught since',
+ 'C06-g1': 'missed at first (no packet with the root name in the junk corpus); root-name / digest-only-name Interests and Data, bare, in an envelope and under a Nack header added; caught since',
+ 'C08-g1': 'the check stopped with a machinery failure at first (family size constant after MapB was added); caught',
+ 'C08-g2': 'missed at first (encode() always allocated its own buffer); view encode-into-dirty-buffer (caller-supplied buffer holding other data, with an offset) added; caught since',
+ 'C16-g2': 'caught; patch.diff is the change rebased by hand onto fix 761a0bf (the agent\'s file is patch-original.diff)',
  'C02-h1': 'missed at first (one verifier object per call); histories over several verifier objects whose key names coincide (NdnPacketsCheckHist); caught since. patch.diff is the change rebased by hand onto fix 83a1840 (the agent\'s file is patch-original.diff)',
  'C07-h1': 'missed at first; position of the ParametersSha256DigestComponent in the Name enumerated and the SignaturePtrs returned by the decoders compared with the strict reading; caught since',
  'C12-h2': 'missed at first; two packet nodes with identical signer lists and different bindings added to the generator; caught since',
@@ -74,7 +81,7 @@ REJECTED = {
  'C19-h1': 'not a violation under the joint reading of C05 and C19: the change makes the legacy front-end turn a validator that is still running at the Interest deadline into InterestTimeout (with a 100 ms floor) - which is what C05 demands (it repairs the known finding KF-legacy-slow-validator); segment_fetcher then re-requests the segment as for any timeout. C19\'s and C05\'s checks pass on it (C05 without the KNOWN-FINDING line).',
 }
 rows = []
-for d in sorted(glob.glob(ROOT + '/C*-[mnkjh]*')):
+for d in sorted(glob.glob(ROOT + '/C*-[mnkjhgf]*')):
     sid = os.path.basename(d)
     prop = sid.split('-')[0]
     notes = open(os.path.join(d, 'notes.md')).read() if os.path.exists(os.path.join(d, 'notes.md')) else ''
